@@ -23,6 +23,7 @@ const repoMod = "github.com/openkruise/rollouts"
 type interceptFn func(ex *Exec, fr *frame, fn *ssa.Function, args []Value, pos tokenPos) Value
 
 type Engine struct {
+	luaTypes *luaGoTypes // gopher-lua value types (luaboundary.go), resolved on first use
 	prog        *ssa.Program
 	pkgs        []*packages.Package
 	ssaPkgs     map[string]*ssa.Package
@@ -278,7 +279,7 @@ func (ex *Exec) resetPath() {
 	ex.mapSeq = 0
 	ex.syncMaps = nil
 	ex.locks, ex.guards, ex.guardedMaps = nil, nil, nil
-	ex.luaLI, ex.pools = nil, nil
+	ex.luaLI, ex.pools, ex.luaCells, ex.nestedMarshal = nil, nil, nil, 0
 	ex.globals = map[*ssa.Global]*Cell{}
 	ex.nondets = nil
 	ex.occ = map[string]int{}
